@@ -12,7 +12,9 @@ import time
 from .. import core, concretise, probe as probemod
 
 O_FAMILY = ["é", "😀", "\\", "'", "\t", "#", ":", "{", "}", ",", "/", "*", "&", "日", " ", "\x01", "`", "=", "<"]
-REF_VALUES = [("int", 5), ("string", "sv"), ("bool", True), ("nil", None), ("float64", 1.5), ("uint64", 18446744073709551615), ("string", "")]
+REF_VALUES = [("int", 5), ("string", "sv"), ("bool", True), ("nil", None), ("float64", 1.5), ("uint64", 18446744073709551615), ("string", ""),
+              ("float64", 3.0), ("int", -7), ("float64", -40.0), ("bool", False), ("float64", 1000.0), ("int", 0), ("float64", 0.0),
+              ("string", "7"), ("string", "true"), ("string", "multi\nline \"q\" \\ */ // `")]
 FN_DEFS = {"a": "fx.Fn", "aa": "fx.FnInt", "a7": "fx.FnE"}
 
 
@@ -300,7 +302,9 @@ def env_cases(v, table, wd, rng):
     if not table:
         return 0
     params, expect, envops = {}, {}, {}
-    setv = {"unset": None, "empty": "", "num": "42", "text": "text"}
+    setv = {"unset": None, "empty": "", "num": "42", "text": "text", "lead0": "010", "nine": "09", "neg": "-012", "plus": "+7", "hex": "0x1F",
+            "octal": "0o17", "binary": "0b101", "under": "1_000", "space": " 42", "trail": "42 ", "big": "9223372036854775808", "float": "4.0", "exp": "1e3"}
+    intv = {"num": 42, "lead0": 10, "nine": 9, "neg": -12, "plus": 7}
     for i, row in enumerate(sorted(table, key=lambda x: json.dumps(x, sort_keys=True))):
         var = "VERIF_E%d" % i
         fn = row["fn"]
@@ -313,7 +317,7 @@ def env_cases(v, table, wd, rng):
         elif row["outcome"] == "default":
             expect[name] = ("string", "dflt") if fn == "env" else ("int", 77)
         else:
-            expect[name] = ("string", setv[row["state"]]) if fn == "env" else ("int", 42)
+            expect[name] = ("string", setv[row["state"]]) if fn == "env" else ("int", intv[row["state"]])
     params["f1"] = '%fnE("fail")%'
     expect["f1"] = ("error", '%fnE("fail")%')
     params["f2"] = 'x-%fnE("fail")%-y'
